@@ -14,6 +14,11 @@ ALPHABETS = [
 def make_pool(rng, size=None):
     size = size or rng.choice(deep([2, 3, 4, 5, 6, 8, 10, 12, 16, 24], [2, 3, 4, 6, 8, 12, 16, 24, 40, 64]))
     style = rng.choice(["fixed1", "fixed2", "fixed4", "fixed32", "var", "var", "var"])
+    r = rng.random()
+    if r < 0.01:
+        style = "huge"
+    elif r < 0.013:
+        style = "bitcomb"
     alpha = rng.choice(ALPHABETS)
 
     def byte():
@@ -27,6 +32,24 @@ def make_pool(rng, size=None):
             pool.append(k)
 
     tries = 0
+    if style == "huge":
+        stem = bytes(byte() for _ in range(rng.choice([515, 520, 600])))
+        for _ in range(min(size, 5)):
+            add(stem + bytes(byte() for _ in range(rng.choice([4, 20, 80]))))
+        add(stem[:514] + bytes([stem[514] ^ 0x01]) + b"\x01")
+        return pool
+    if style == "bitcomb":
+        # one key of 33-36 bytes plus a neighbour for (almost) every bit: paths of 260+ nodes
+        n = 33
+        base = bytes(byte() for _ in range(n))
+        add(base)
+        bits = list(range(8 * n))
+        rng.shuffle(bits)
+        for b in bits[:262]:
+            k = bytearray(base)
+            k[b // 8] ^= 0x80 >> (b % 8)
+            add(bytes(k))
+        return pool
     if style.startswith("fixed"):
         n = int(style[5:])
         add(bytes(byte() for _ in range(n)))
@@ -82,7 +105,7 @@ def probe_keys(rng, pool):
     for k in pool:
         add(k)
     for k in pool:
-        for j in range(1, len(k)):
+        for j in range(1, len(k)) if len(k) <= 40 else [1, len(k) - 1]:
             add(k[:j])
         add(k + b"\x00")
         add(k + bytes([rng.randrange(256)]))
@@ -108,6 +131,16 @@ class BHistory:
 
     def via(self):
         return "d" if self.via_dict and self.rng.random() < 0.6 else "m"
+
+    def preload(self):
+        """Big pools (bit combs) only get deep when (almost) all keys are stored."""
+        out = []
+        if len(self.pool) > 100:
+            v = self.values[0]
+            for k in self.pool:
+                self.present[k] = v
+                out.append({"op": "set", "k": hx(k), "v": hx(v), "via": "m"})
+        return out
 
     def mutation(self):
         rng = self.rng
